@@ -17,7 +17,9 @@ RULE = ('gin-machine/macros: 1-3 parse phases; macro definitions, uses (%m) and 
 TRUSTED_BASE = c01.TRUSTED_BASE
 ASSUMPTIONS = []
 
-MACROS = ['mm', 'nn', 's1/mm']
+# 's1' is a macro whose name is a proper '/'-prefix of the scope-like names 's1/mm', 's1/s2/mm' (each is its own macro:
+# one being bound says nothing about another)
+MACROS = ['mm', 'nn', 's1/mm', 's1', 's1/s2/mm']
 CONSTS = ['K', 'a.K', 'b.a.K', 'x.Y', 'Y', 'c.Z']
 
 
@@ -69,7 +71,13 @@ class MacroEngine(c01.CallEngine):
         ['constant', 'a.K', ['obj', 'o1']], ['constant', 'b.K', ['i', 5]], ['pbind', 'f.a', ['macro', 'a.K']],
         ['pbind', 'f.b', ['macro', 'K']], ['constant', 'a.K', ['i', 1]], ['constant', '1bad', ['i', 1]],
         ['call', 'm.f', [], []], ['query', 'a.K'], ['query', 'K'], ['pbind', 'f.b', ['macro', 'undefined']],
-        ['finalize'], ['pbind', 'f.b', ['ref', ['mm'], 'gin.macro', False]], ['finalize'], ['dumpcalls'], ['dumpconfig']]}]
+        ['finalize'], ['pbind', 'f.b', ['ref', ['mm'], 'gin.macro', False]], ['finalize'], ['dumpcalls'], ['dumpconfig']]},
+            {'regs': [f, g], 'ops': [
+                ['pbind', 's1', ['i', 1]], ['pbind', 'f.a', ['macro', 's1/mm']], ['finalize'], ['locked'],
+                ['pbind', 's1/s2/mm', ['i', 3]], ['pbind', 'f.b', ['macro', 's1/s2']], ['finalize'], ['locked'], ['dumpconfig']]},
+            {'regs': [f, g], 'ops': [
+                ['pbind', 's1/mm', ['i', 1]], ['pbind', 'f.a', ['l', [['macro', 's1/s2/mm'], ['macro', 's1/mm']]]], ['finalize'], ['locked'],
+                ['pbind', 's1/s2/mm', ['i', 2]], ['call', 'm.f', [], []], ['finalize'], ['locked'], ['dumpcalls']]}]
 
   def gen(self, rng, tier):
     regs = []
